@@ -1,6 +1,9 @@
 -- Root of the `RefurbVerif` library: every property file.
+import RefurbVerif.Props.C01
 import RefurbVerif.Props.C03
 import RefurbVerif.Props.C04
+import RefurbVerif.Props.C05
+import RefurbVerif.Props.C07
 import RefurbVerif.Props.C08
 import RefurbVerif.Props.C09
 import RefurbVerif.Props.C10
